@@ -99,6 +99,11 @@ fn main() {
         emit_h(a, &b.as_bytes()[..1], &b.as_bytes()[1..], &mut stats);
         n_h += 2;
     }
+    // server ids are hashed verbatim: surrounding / inner whitespace, case and control characters matter
+    for id in [" justchunks ", "justchunks ", " justchunks", "\tid", "id\n", " ", "  ", "Just Chunks", "JUSTCHUNKS", "id\u{0}", "\u{feff}id"] {
+        emit_h(id, b"verysecuresecret", b"key", &mut stats);
+        n_h += 1;
+    }
     emit_h("", b"", b"", &mut stats);
     emit_h("justchunks", b"verysecuresecret", b"verysecuresecret", &mut stats); // the crate's own test
     n_h += 2;
